@@ -178,6 +178,11 @@ fn main() {
     // construction describe the same set of repositories: one representative per (DAG, branch refs)
     let mut seen_dag = std::collections::BTreeSet::new();
     let shapes: Vec<&Shape> = all_shapes.iter().filter(|s| seen_dag.insert((s.parents.clone(), s.branches.clone()))).filter(|s| !quick || s.parents.len() <= 3 || s.has_merge()).collect();
+    // histories outside the BFS alphabet (merge commits where a fast-forward was possible, criss-cross and octopus merges): one
+    // version name on every commit in turn (thorough: two names, two tags)
+    let specials = gitx::special_shapes();
+    let n_bfs_shapes = shapes.len();
+    let shapes: Vec<&Shape> = shapes.into_iter().chain(specials.iter()).collect();
     let alpha = tag_alphabet(!quick);
     let tmax = if quick { 2 } else { 2 };
     let wall_cap = std::time::Duration::from_secs(if quick { 240 } else { 1500 });
@@ -190,8 +195,10 @@ fn main() {
         let n = shape.parents.len();
         let modes: Vec<DateMode> = if shape.has_merge() && quick { vec![DateMode::Increasing, DateMode::ZigZag, DateMode::Equal] } else if shape.has_merge() { vec![DateMode::Increasing, DateMode::Decreasing, DateMode::ZigZag, DateMode::Equal] } else if quick { vec![DateMode::Increasing] } else { vec![DateMode::Increasing, DateMode::Decreasing] };
         // quick: 4-commit shapes get the three plain version names only (the PEP 440-only name is covered on smaller shapes and in layer C)
-        let a: Vec<(&'static str, bool)> = if quick && n >= 4 { alpha.iter().take(3).cloned().collect() } else { alpha.clone() };
-        let labs = labelings(n, &a, tmax);
+        let special = si >= n_bfs_shapes;
+        let a: Vec<(&'static str, bool)> = if special { alpha.iter().take(if quick { 1 } else { 2 }).cloned().collect() } else if quick && n >= 4 { alpha.iter().take(3).cloned().collect() } else { alpha.clone() };
+        let labs = labelings(n, &a, if special && quick { 1 } else { tmax });
+        let modes: Vec<DateMode> = if special && quick { vec![DateMode::Increasing, DateMode::Equal] } else { modes };
         for (mi, mode) in modes.iter().enumerate() {
             for (ci, chunk) in labs.chunks(24).enumerate() {
                 units.push(Unit { si, shape, mi, mode: *mode, labelings: chunk.to_vec(), first_of_shape: mi == 0 && ci == 0 });
